@@ -80,6 +80,19 @@ fn parse_content(
                         Span::new(base_position + position, base_position + end_position),
                     )
                 })?;
+                // a character reference consists of digits only (the integer
+                // parsers also accept a sign) and must denote an XML Char
+                let digits = if first_char == 'x' {
+                    &entity[1..]
+                } else {
+                    entity
+                };
+                if !digits.chars().all(|d| d.is_ascii_hexdigit()) || !is_xml_char(c) {
+                    return Err(ParseError::InvalidEntity(
+                        entity.to_string(),
+                        Span::new(base_position + position, base_position + end_position),
+                    ));
+                }
                 result.push(c);
             } else {
                 match entity.as_str() {
@@ -111,6 +124,12 @@ fn parse_content(
     } else {
         Ok(result.into())
     }
+}
+
+// https://www.w3.org/TR/xml/#NT-Char
+fn is_xml_char(c: char) -> bool {
+    matches!(c,
+        '\u{9}' | '\u{A}' | '\u{D}' | '\u{20}'..='\u{D7FF}' | '\u{E000}'..='\u{FFFD}' | '\u{10000}'..='\u{10FFFF}')
 }
 
 pub(crate) fn serialize_text<'a, N: Normalizer>(
